@@ -4,6 +4,8 @@ import (
 	"context"
 	"fmt"
 	"go/types"
+	"strings"
+	"unicode"
 
 	"github.com/rs/zerolog"
 	"github.com/vektra/mockery/v3/config"
@@ -191,6 +193,15 @@ func (m *MethodScope) AddVar(ctx context.Context, vr *types.Var, prefix string, 
 			pkgPath: m.pkgPath,
 		}
 		m.AddName(v.TypeString())
+		// Also reserve every identifier the type string is made of (element
+		// types of slices, maps, channels, variadics, type arguments...), so
+		// that a parameter named like one of them is renamed and cannot
+		// capture it inside the method body.
+		for _, ident := range strings.FieldsFunc(v.TypeString(), func(r rune) bool {
+			return r != '_' && !unicode.IsLetter(r) && !unicode.IsDigit(r)
+		}) {
+			m.AddName(ident)
+		}
 	}
 	v.Name = m.SuggestName(varName(vr, prefix))
 	m.vars = append(m.vars, &v)
